@@ -322,6 +322,8 @@ class QueryScheduler:
         '_next_scheduled_for_alias',
         '_query_heap',
         '_next_run',
+        '_next_run_millis',
+        '_earliest_next_run_millis',
         '_clock_resolution_millis',
         '_question_type',
     )
@@ -349,6 +351,8 @@ class QueryScheduler:
         self._next_scheduled_for_alias: Dict[str, _ScheduledPTRQuery] = {}
         self._query_heap: list[_ScheduledPTRQuery] = []
         self._next_run: Optional[asyncio.TimerHandle] = None
+        self._next_run_millis: float = 0.0
+        self._earliest_next_run_millis: float = 0.0
         self._clock_resolution_millis = time.get_clock_info('monotonic').resolution * 1000
         self._question_type = question_type
 
@@ -388,6 +392,24 @@ class QueryScheduler:
         """Schedule a query for a pointer."""
         self._next_scheduled_for_alias[scheduled_query.alias] = scheduled_query
         heappush(self._query_heap, scheduled_query)
+        self._rearm_if_earlier(scheduled_query.when_millis)
+
+    def _rearm_if_earlier(self, when_millis: float_) -> None:
+        """Wake up earlier if a query is due before the wake-up that is already armed."""
+        if self._next_run is None or self._startup_queries_sent < STARTUP_QUERIES:
+            return
+        # Never earlier than the minimum time between queries after the last run
+        next_when_millis = max(when_millis, self._earliest_next_run_millis)
+        if next_when_millis < self._next_run_millis:
+            self._next_run.cancel()
+            self._arm_ready_types(next_when_millis)
+
+    def _arm_ready_types(self, when_millis: float_) -> None:
+        """Arm the wake-up that processes the ready types."""
+        if TYPE_CHECKING:
+            assert self._loop is not None
+        self._next_run_millis = when_millis
+        self._next_run = self._loop.call_at(millis_to_seconds(when_millis), self._process_ready_types)
 
     def cancel_ptr_refresh(self, pointer: DNSPointer) -> None:
         """Cancel a query for a pointer."""
@@ -407,6 +429,9 @@ class QueryScheduler:
                 <= refresh_time_millis - current.when_millis
                 <= self._min_time_between_queries_millis
             ):
+                # Keep the schedule but follow the lifetime of the refreshed record
+                current.ttl = int(pointer.ttl)
+                current.expire_time_millis = pointer.get_expiration_time(100)
                 return
             current.cancelled = True
             del self._next_scheduled_for_alias[pointer.alias]
@@ -448,10 +473,8 @@ class QueryScheduler:
         # switch to a strategy of sending queries only when we
         # need to refresh records that are about to expire
         if self._startup_queries_sent >= STARTUP_QUERIES:
-            self._next_run = self._loop.call_at(
-                millis_to_seconds(now_millis + self._min_time_between_queries_millis),
-                self._process_ready_types,
-            )
+            self._earliest_next_run_millis = now_millis + self._min_time_between_queries_millis
+            self._arm_ready_types(self._earliest_next_run_millis)
             return
 
         self._next_run = self._loop.call_later(self._startup_queries_sent**2, self._process_startup_queries)
@@ -497,6 +520,10 @@ class QueryScheduler:
         for query in schedule_rescue:
             self.schedule_rescue_query(query, now_millis, RESCUE_RECORD_RETRY_TTL_PERCENTAGE)
 
+        if self._query_heap:
+            # A rescue query scheduled above may be due before the query the loop stopped at
+            next_scheduled = self._query_heap[0]
+
         if ready_types:
             self.async_send_ready_queries(False, now_millis, ready_types)
 
@@ -507,7 +534,8 @@ class QueryScheduler:
         else:
             next_when_millis = next_time_millis
 
-        self._next_run = self._loop.call_at(millis_to_seconds(next_when_millis), self._process_ready_types)
+        self._earliest_next_run_millis = next_time_millis
+        self._arm_ready_types(next_when_millis)
 
     def async_send_ready_queries(
         self, first_request: bool, now_millis: float_, ready_types: Set[str]
